@@ -317,7 +317,7 @@ func TestC20(t *testing.T) {
 			"failed_ops_state_compared", "add_existing_slot_checked", "delete_last_slot_checked", "second_initialize_checked", "add_wrong_credentials_checked", "delete_wrong_key_checked",
 			"corruption_states", "corruptions_checked", "renames_checked", "renames_order_preserved", "renames_order_changed", "corr_blob", "corr_swap", "corr_add", "corr_remove", "corr_hmac",
 			"corr_raw_flips", "corr_live_retrievals_checked", "corr_then_add_checked", "corr_then_delete_checked", "corr_then_op_refused", "corr_then_op_with_untouched_authenticating_slot",
-			"corr_then_add_control_ok", "corr_then_delete_control_ok", "corr_then_roundtrip_matrices", "corr_then_op_add", "corr_then_op_remove", "corr_then_op_blob")
+			"corr_then_add_control_ok", "corr_then_delete_control_ok", "corr_then_roundtrip_matrices", "corr_then_op_add", "corr_then_op_remove", "corr_then_op_blob", "concurrent_same_id_adds", "concurrent_delete_all")
 
 		p, err := newPool()
 		if err != nil {
@@ -368,9 +368,159 @@ func TestC20(t *testing.T) {
 			}
 		}
 
+		// part 3: concurrent use of one KeyStorage (the API is documented with a mutex: guards must hold under contention too)
+		for k := 0; k < c.N(40, 3000); k++ {
+			submit(func() {
+				cn := counters{}
+				defer cn.flush(c)
+
+				concurrentOps(c, p, rand.New(rand.NewPCG(uint64(c.Seed), uint64(17_000_000+k))), k, cn)
+			})
+		}
+
 		wg.Wait()
 		close(tasks)
 	})
+}
+
+// concurrentOps: several goroutines hit one initialised storage at the same time - AddKeySlot of the SAME new id with different
+// public keys (at most one may win: an existing slot is never overwritten; the winner's key, and only it, recovers the master key
+// through that slot), or DeleteKeySlot of every slot at once (at least one slot must survive, and every surviving slot still
+// recovers the original master key). The race detector watches the storage's shared state meanwhile.
+func concurrentOps(c *vk.C, p *pool, rng *rand.Rand, k int, cn counters) {
+	master := make([]byte, 32)
+	for i := range master {
+		master[i] = byte(rng.IntN(256))
+	}
+
+	ks := &keystorage.KeyStorage{}
+
+	if err := ks.Initialize(master, "s0", p.keys[0].Pub); err != nil {
+		c.Violation("concurrent-setup-failed", map[string]any{"err": err.Error()})
+
+		return
+	}
+
+	detail := func(m map[string]any) map[string]any { m["family"] = "concurrent"; m["k"] = k; return m }
+
+	if k%2 == 0 {
+		n := 2 + rng.IntN(3)
+		errs := make([]error, n)
+
+		var wg sync.WaitGroup
+
+		start := make(chan struct{})
+
+		for g := 0; g < n; g++ {
+			wg.Add(1)
+
+			go func() {
+				defer wg.Done()
+
+				<-start
+
+				errs[g] = ks.AddKeySlot("contested", p.keys[1+g].Pub, "s0", p.keys[0].Priv)
+			}()
+		}
+
+		close(start)
+		wg.Wait()
+
+		var winners []int
+
+		for g, err := range errs {
+			if err == nil {
+				winners = append(winners, g)
+			}
+		}
+
+		cn["concurrent_same_id_adds"]++
+
+		if len(winners) != 1 {
+			c.Violation("concurrent-adds-of-one-slot-id-both-succeeded", detail(map[string]any{"callers": n, "succeeded": winners, "errors": fmt.Sprint(errs)}))
+
+			return
+		}
+
+		for g := 0; g < n; g++ {
+			r := get(ks, "contested", p.keys[1+g].Priv)
+			ok := r.Err == nil && r.Panic == nil && string(r.Key) == string(master)
+
+			if ok != (g == winners[0]) {
+				c.Violation("concurrent-add-slot-key-mismatch", detail(map[string]any{"winner": winners[0], "key_of_caller": g, "recovers_master_key": ok, "err": fmt.Sprint(r.Err)}))
+
+				return
+			}
+		}
+
+		cn["concurrent_matrix_cells"] += n
+	} else {
+		n := 2 + rng.IntN(3)
+
+		for g := 1; g < n; g++ {
+			if err := ks.AddKeySlot(fmt.Sprintf("s%d", g), p.keys[g].Pub, "s0", p.keys[0].Priv); err != nil {
+				c.Violation("concurrent-setup-failed", map[string]any{"err": err.Error()})
+
+				return
+			}
+		}
+
+		errs := make([]error, n)
+
+		var wg sync.WaitGroup
+
+		start := make(chan struct{})
+
+		for g := 0; g < n; g++ {
+			wg.Add(1)
+
+			go func() {
+				defer wg.Done()
+
+				<-start
+
+				errs[g] = ks.DeleteKeySlot(fmt.Sprintf("s%d", g), p.keys[g].Priv)
+			}()
+		}
+
+		close(start)
+		wg.Wait()
+
+		cn["concurrent_delete_all"]++
+
+		live := 0
+
+		for g := 0; g < n; g++ {
+			r := get(ks, fmt.Sprintf("s%d", g), p.keys[g].Priv)
+
+			switch {
+			case r.Panic != nil:
+				c.Violation("retrieval-panicked", detail(map[string]any{"panic": fmt.Sprint(r.Panic)}))
+
+				return
+			case r.Err == nil && string(r.Key) != string(master):
+				c.Violation("wrong-master-key-returned", detail(map[string]any{"slot": g}))
+
+				return
+			case r.Err == nil:
+				live++
+
+				if errs[g] == nil {
+					c.Violation("deleted-slot-still-recovers-key", detail(map[string]any{"slot": g}))
+
+					return
+				}
+			}
+		}
+
+		if live == 0 {
+			c.Violation("concurrent-deletes-removed-the-last-slot", detail(map[string]any{"slots": n, "errors": fmt.Sprint(errs)}))
+
+			return
+		}
+
+		cn["concurrent_matrix_cells"] += n
+	}
 }
 
 // ---- part 1: model-based sequences ----------------------------------------------------------------------------------------
